@@ -47,12 +47,12 @@ type Violation struct {
 // Ctx is the per-case context.
 type Ctx struct {
 	Worker int
-	Check string
-	ID    string
-	Seed  int64
-	Tier  string
-	Rng   *rand.Rand
-	T     *testing.T
+	Check  string
+	ID     string
+	Seed   int64
+	Tier   string
+	Rng    *rand.Rand
+	T      *testing.T
 
 	mu         sync.Mutex
 	violations []Violation
